@@ -354,6 +354,12 @@ impl Ctx {
             }
             return;
         }
+        // JSON-like body (`json!({ "k": expr, .. })`): parse the value expressions
+        let vals = json_like_values(m.tokens.clone());
+        if !vals.is_empty() {
+            self.list("args", vals.iter(), |c, e| c.expr(e));
+            return;
+        }
         self.comma();
         self.kv("tokens", &m.tokens.to_string());
     }
@@ -821,6 +827,59 @@ impl Ctx {
             }
         }
     }
+}
+
+/// For a token stream shaped like `{ key : expr , key : expr }` (possibly nested), return the
+/// expressions that parse. Used for `json!` bodies.
+fn json_like_values(ts: TokenStream) -> Vec<Expr> {
+    let mut out = Vec::new();
+    let toks: Vec<proc_macro2::TokenTree> = ts.into_iter().collect();
+    if toks.len() == 1 {
+        if let proc_macro2::TokenTree::Group(g) = &toks[0] {
+            if g.delimiter() == proc_macro2::Delimiter::Brace {
+                // split at top-level commas
+                let mut cur: Vec<proc_macro2::TokenTree> = Vec::new();
+                let mut pieces: Vec<Vec<proc_macro2::TokenTree>> = Vec::new();
+                for t in g.stream() {
+                    if let proc_macro2::TokenTree::Punct(p) = &t {
+                        if p.as_char() == ',' {
+                            pieces.push(std::mem::take(&mut cur));
+                            continue;
+                        }
+                    }
+                    cur.push(t);
+                }
+                if !cur.is_empty() {
+                    pieces.push(cur);
+                }
+                for piece in pieces {
+                    // key : value   (a single ':' punct that is not part of '::')
+                    let mut idx = None;
+                    for (i, t) in piece.iter().enumerate() {
+                        if let proc_macro2::TokenTree::Punct(p) = t {
+                            if p.as_char() == ':' && p.spacing() == proc_macro2::Spacing::Alone {
+                                let prev_joint = i > 0
+                                    && matches!(&piece[i - 1], proc_macro2::TokenTree::Punct(q) if q.as_char() == ':' && q.spacing() == proc_macro2::Spacing::Joint);
+                                if !prev_joint {
+                                    idx = Some(i);
+                                    break;
+                                }
+                            }
+                        }
+                    }
+                    if let Some(i) = idx {
+                        let val: TokenStream = piece[i + 1..].iter().cloned().collect();
+                        if let Ok(e) = syn::parse2::<Expr>(val.clone()) {
+                            out.push(e);
+                        } else {
+                            out.extend(json_like_values(val));
+                        }
+                    }
+                }
+            }
+        }
+    }
+    out
 }
 
 fn wrap_braces(ts: TokenStream) -> TokenStream {
